@@ -76,7 +76,11 @@ var tcpAddrs = []addrT{
 
 var scopeProbes = append(append([]addrT{}, tcpAddrs...),
 	addrT{"tcpa", "127.0.0.1", true}, addrT{"udp4", "127.0.0.1", true}, addrT{"udp6", "::1", true},
-	addrT{"unix", "/run/nfd/nfd.sock", true}, addrT{"unix", "/tmp/x.sock", true})
+	addrT{"unix", "/run/nfd/nfd.sock", true}, addrT{"unix", "/tmp/x.sock", true},
+	// WebSocket faces accepted by the real listener handler: scope by the TCP peer address, whatever
+	// the client's handshake headers claim (wsf)
+	addrT{"ws", "127.0.0.1", true}, addrT{"ws", "192.0.2.7", false}, addrT{"ws", "10.1.2.3", false},
+	addrT{"wsf", "192.0.2.7", false}, addrT{"wsf", "203.0.113.9", false}, addrT{"wsf", "127.0.0.1", true})
 
 func (s *genSt) name() enc.Name {
 	r := s.r
